@@ -45,6 +45,7 @@
 #include <etl/flat_set.hpp>
 #include <etl/functional.hpp>
 #include <etl/numeric.hpp>
+#include <etl/utility.hpp>
 #include <etl/set.hpp>
 #include <etl/string.hpp>
 #include <etl/string_view.hpp>
@@ -78,6 +79,7 @@ struct Ch { using type = int; };                       // int holding a characte
 struct Str { using type = u64; };                      // packed C string (<= 7 chars)
 struct Cnt { using type = std::size_t; };              // size_t count
 struct Seed { using type = u64; };                     // scenario seed
+struct BSeq { using type = u64; };                     // <= 15 elements: 4-bit indices (1..8) into the element alphabet kElem, 0 ends
 template <typename C>
 struct WSeq { using type = u64; using char_type = C; }; // sequence of <= 15 code units of C: 4-bit alphabet indices, 0 ends
 template <typename C>
@@ -201,6 +203,8 @@ auto classify_arg(u64 b) -> unsigned
         auto const fl = __builtin_floor(ax);
         if (ax - fl == 0.5) { c |= kTie; }
         return c;
+    } else if constexpr (std::is_same_v<T, BSeq>) {
+        return kChar | kHighBit | ((b & 0xf) == 0 ? kZero : 0U); // element-index sequences: the alphabet is all boundary values
     } else if constexpr (is_wseq<T> || is_wunit<T>) {
         unsigned c = kChar;
         if ((b & 0xf) == 0) { c |= kZero; }
@@ -263,6 +267,13 @@ auto show_arg(u64 b) -> std::string
             o += buf;
         }
         return o + (is_wseq<T> ? "]" : "");
+    } else if constexpr (std::is_same_v<T, BSeq>) {
+        std::string o = "{";
+        for (int i = 0; i < 16 && ((b >> (4 * i)) & 0xf) != 0; ++i) {
+            std::snprintf(buf, sizeof buf, "%s#%u", i == 0 ? "" : " ", static_cast<unsigned>((b >> (4 * i)) & 0xf));
+            o += buf;
+        }
+        return o + "}";
     } else if constexpr (std::is_same_v<T, Seed>) {
         std::snprintf(buf, sizeof buf, "seed 0x%016llx", static_cast<unsigned long long>(b));
         return buf;
@@ -512,6 +523,17 @@ constexpr auto neg_zero(T v) -> bool
 }
 template <typename T>
 constexpr auto pos_zero(T v) -> bool { return v == 0 && !neg_zero(v); }
+
+struct scen_hash {
+    u64 h{1469598103934665603ULL};
+    template <typename T>
+    constexpr void add(T v)
+    {
+        h ^= static_cast<u64>(v);
+        h *= 1099511628211ULL;
+        h ^= h >> 29U;
+    }
+};
 
 // ================================================================== cmath
 #if defined(C13_PART_CM64) || defined(C13_PART_CM32)
@@ -992,6 +1014,211 @@ C13_FN2(wmemmove_down_x, "wmemmove_down", "wstring", WSeq<wchar_t>, Cnt, (y + 1 
     [&] { Arr<wchar_t> a{x, false}; etl::wmemmove(a.p, a.p + 1, y); return hash_units(a.p, a.n); }())
 C13_FN2(wmemset_x, "wmemset", "wstring", WUnit<wchar_t>, Cnt, true, kNoTag,
     [&] { Arr<wchar_t> d{y, wchar_t(0x55)}; etl::wmemset(d.p, unit<wchar_t>(x), y); return hash_units(d.p, y); }())
+    #define C13_HAVE_PART 1
+#endif
+
+// ================================================================== heterogeneous needles (HET), mixed integer types (MIX), 32-bit durations (DUR)
+#if defined(C13_PART_HET)
+// Value-taking algorithms on exact-size arrays of 1- and 2-byte elements with a needle of a WIDER type that is not
+// representable in the element type (+256k, negative for unsigned, >= 0x80 for signed char): `*it == value` compares after
+// the usual arithmetic conversions, a byte-wise run-time fast path would compare low bytes.
+inline constexpr unsigned kElem[8] = {0x0041, 0xe9e9, 0xffff, 0x8000, 0x7fff, 0x0000, 0x0001, 0x80e9};
+template <typename E>
+constexpr auto elem(u64 idx) -> E
+{
+    if constexpr (std::is_same_v<E, bool>) {
+        return (idx & 1U) != 0;
+    } else if constexpr (sizeof(E) == 1) {
+        return static_cast<E>(kElem[(idx - 1) % 8] & 0xffU); // 0x41 0xe9 0xff 0x00 0xff 0x00 0x01 0xe9 ... low bytes
+    } else {
+        return static_cast<E>(kElem[(idx - 1) % 8]);
+    }
+}
+template <typename E, typename N>
+constexpr auto hetero(u64 packed, N needle) -> u64
+{
+    scen_hash h;
+    std::size_t n = 0;
+    while (n < 15 && ((packed >> (4 * n)) & 0xf) != 0) { ++n; }
+    auto* p = new E[n];
+    for (std::size_t i = 0; i < n; ++i) { p[i] = elem<E>((packed >> (4 * i)) & 0xf); }
+    E const* f = p;
+    E const* l = p + n;
+    h.add(etl::find(f, l, needle) - f);
+    h.add(etl::find(p, p + n, needle) - p);
+    h.add(etl::count(f, l, needle));
+    h.add(etl::search_n(f, l, 1, needle) - f);
+    h.add(etl::search_n(f, l, 2, needle) - f);
+    {
+        auto* q = new E[n];
+        for (std::size_t i = 0; i < n; ++i) { q[i] = p[i]; }
+        auto* e = etl::remove(q, q + n, needle);
+        h.add(e - q);
+        for (auto* it = q; it != e; ++it) { h.add(static_cast<u64>(static_cast<long long>(*it))); }
+        for (std::size_t i = 0; i < n; ++i) { q[i] = p[i]; }
+        etl::replace(q, q + n, needle, static_cast<N>(1)); // (one deduced type: old and new value are both N)
+        for (std::size_t i = 0; i < n; ++i) { h.add(static_cast<u64>(static_cast<long long>(q[i]))); }
+        etl::fill(q, q + n, needle);
+        for (std::size_t i = 0; i < n; ++i) { h.add(static_cast<u64>(static_cast<long long>(q[i]))); }
+        etl::fill_n(q, n, needle);
+        if (n != 0) { h.add(static_cast<u64>(static_cast<long long>(q[n - 1]))); }
+        delete[] q;
+    }
+    if constexpr (!std::is_same_v<E, bool>) {
+        etl::static_vector<E, 15> v(f, l);
+        h.add(etl::erase(v, needle));
+        h.add(v.size());
+        // heterogeneous binary searches need the conversion E -> common type to keep the order of the elements
+        if constexpr (std::is_unsigned_v<E> || (std::is_signed_v<N> && sizeof(N) >= sizeof(int))) {
+            auto* q = new E[n];
+            for (std::size_t i = 0; i < n; ++i) { q[i] = p[i]; }
+            etl::sort(q, q + n);
+            E const* sf = q;
+            h.add(etl::lower_bound(sf, sf + n, needle) - sf);
+            h.add(etl::upper_bound(sf, sf + n, needle) - sf);
+            h.add(etl::binary_search(sf, sf + n, needle));
+            auto const er = etl::equal_range(sf, sf + n, needle);
+            h.add(er.first - sf);
+            h.add(er.second - sf);
+            delete[] q;
+        }
+    }
+    delete[] p;
+    return h.h;
+}
+    #define C13_HET(ES, E, NS, N) C13_FN2(het_##ES##_##NS, "hetero." #ES "." #NS, "hetero", BSeq, N, true, kNoTag, hetero<E, N>(x, y))
+    #define C13_HET_E(ES, E)                                                                                                                     \
+        C13_HET(ES, E, same, E)                                                                                                                  \
+        C13_HET(ES, E, short, short)                                                                                                             \
+        C13_HET(ES, E, int, int)                                                                                                                 \
+        C13_HET(ES, E, uint, unsigned)                                                                                                           \
+        C13_HET(ES, E, ll, long long)                                                                                                            \
+        C13_HET(ES, E, ull, unsigned long long)
+C13_HET_E(char, char)
+C13_HET_E(schar, signed char)
+C13_HET_E(uchar, unsigned char)
+C13_HET_E(char8, char8_t)
+C13_HET_E(bool, bool)
+C13_HET_E(i16, std::int16_t)
+C13_HET_E(u16, std::uint16_t)
+    #define C13_HAVE_PART 1
+#endif
+#if defined(C13_PART_MIX)
+// Two-argument integer helpers with MIXED argument types: every (signed/unsigned x 8/16/32/64)^2 pair, each argument at
+// its own min / max.  gcd/lcm domain: |m| and |n| (and the lcm) representable in common_type_t<M, N>.
+template <typename M, typename N>
+constexpr auto gcdlcm_dom(M m, N n, bool with_lcm) -> bool
+{
+    using R = std::common_type_t<M, N>;
+    using W = unsigned __int128;
+    auto const am = static_cast<W>(m < 0 ? -static_cast<__int128>(m) : static_cast<__int128>(m));
+    auto const an = static_cast<W>(n < 0 ? -static_cast<__int128>(n) : static_cast<__int128>(n));
+    auto const rmax = static_cast<W>(std::numeric_limits<R>::max());
+    if (am > rmax || an > rmax) { return false; }
+    if (!with_lcm || am == 0 || an == 0) { return true; }
+    W a = am;
+    W b = an;
+    while (b != 0) {
+        auto const t = a % b;
+        a            = b;
+        b            = t;
+    }
+    return am / a * an <= rmax;
+}
+template <typename M, typename N>
+constexpr auto mixed_cmp(M m, N n) -> u64
+{
+    u64 r = 0;
+    r     = r * 2 + etl::cmp_equal(m, n);
+    r     = r * 2 + etl::cmp_not_equal(m, n);
+    r     = r * 2 + etl::cmp_less(m, n);
+    r     = r * 2 + etl::cmp_greater(m, n);
+    r     = r * 2 + etl::cmp_less_equal(m, n);
+    r     = r * 2 + etl::cmp_greater_equal(m, n);
+    r     = r * 2 + etl::in_range<M>(n);
+    r     = r * 2 + etl::in_range<N>(m);
+    r     = r * 0x100000001b3ULL + res(etl::saturate_cast<M>(n));
+    r     = r * 0x100000001b3ULL + res(etl::saturate_cast<N>(m));
+    return r;
+}
+    #define C13_MIX(MS, M, NS, N)                                                                                                                \
+        C13_FN2(gcd_##MS##_##NS, "gcd." #MS "." #NS, "numeric", M, N, gcdlcm_dom(x, y, false), kNoTag, etl::gcd(x, y))                            \
+        C13_FN2(lcm_##MS##_##NS, "lcm." #MS "." #NS, "numeric", M, N, gcdlcm_dom(x, y, true), kNoTag, etl::lcm(x, y))                             \
+        C13_FN2(cmp_##MS##_##NS, "cmp." #MS "." #NS, "numeric", M, N, true, kNoTag, mixed_cmp(x, y))
+    #define C13_MIX_M(MS, M)                                                                                                                     \
+        C13_MIX(MS, M, i8, std::int8_t)                                                                                                          \
+        C13_MIX(MS, M, u8, std::uint8_t)                                                                                                         \
+        C13_MIX(MS, M, i16, std::int16_t)                                                                                                        \
+        C13_MIX(MS, M, u16, std::uint16_t)                                                                                                       \
+        C13_MIX(MS, M, i32, std::int32_t)                                                                                                        \
+        C13_MIX(MS, M, u32, std::uint32_t)                                                                                                       \
+        C13_MIX(MS, M, i64, std::int64_t)                                                                                                        \
+        C13_MIX(MS, M, u64, std::uint64_t)
+C13_MIX_M(i8, std::int8_t)
+C13_MIX_M(u8, std::uint8_t)
+C13_MIX_M(i16, std::int16_t)
+C13_MIX_M(u16, std::uint16_t)
+C13_MIX_M(i32, std::int32_t)
+C13_MIX_M(u32, std::uint32_t)
+C13_MIX_M(i64, std::int64_t)
+C13_MIX_M(u64, std::uint64_t)
+    #define C13_HAVE_PART 1
+#endif
+#if defined(C13_PART_DUR)
+// duration_cast / floor / ceil / round between durations with 32-bit representations at counts where count * num exceeds
+// INT32_MAX although argument and result are representable.  Domain: the exact quotient (+-1 for ceil / round) fits To::rep.
+namespace dur {
+namespace ec = etl::chrono;
+using sec32   = ec::duration<std::int32_t>;
+using ms32    = ec::duration<std::int32_t, etl::milli>;
+using t44100  = ec::duration<std::int32_t, etl::ratio<1, 44100>>;
+using t48000  = ec::duration<std::int32_t, etl::ratio<1, 48000>>;
+template <typename To, typename From>
+constexpr auto fits(long long count) -> bool
+{
+    using CF = etl::ratio_divide<typename From::period, typename To::period>;
+    if (count < std::numeric_limits<typename From::rep>::min() || count > std::numeric_limits<typename From::rep>::max()) { return false; }
+    auto const q = static_cast<__int128>(count) * CF::num / CF::den;
+    return q - 1 >= std::numeric_limits<typename To::rep>::min() && q + 1 <= std::numeric_limits<typename To::rep>::max();
+}
+template <typename To, typename From>
+constexpr auto casts(long long count) -> u64
+{
+    From const d{static_cast<typename From::rep>(count)};
+    u64 r = 0;
+    r     = r * 0x100000001b3ULL + static_cast<u64>(static_cast<long long>(ec::duration_cast<To>(d).count()));
+    r     = r * 0x100000001b3ULL + static_cast<u64>(static_cast<long long>(ec::floor<To>(d).count()));
+    r     = r * 0x100000001b3ULL + static_cast<u64>(static_cast<long long>(ec::ceil<To>(d).count()));
+    r     = r * 0x100000001b3ULL + static_cast<u64>(static_cast<long long>(ec::round<To>(d).count()));
+    using TP = ec::time_point<ec::system_clock, From>;
+    r     = r * 0x100000001b3ULL + static_cast<u64>(static_cast<long long>(ec::floor<To>(TP{d}).time_since_epoch().count()));
+    return r;
+}
+} // namespace dur
+    #define C13_DUR(FS, F, TS, T) C13_FN1(dur_##FS##_##TS, "duration_cast." #FS "." #TS, "chrono", long long, (dur::fits<T, F>(x)), kNoTag, dur::casts<T, F>(x))
+    #define C13_DUR_F(FS, F)                                                                                                                     \
+        C13_DUR(FS, F, minutes, dur::ec::minutes)                                                                                                \
+        C13_DUR(FS, F, hours, dur::ec::hours)                                                                                                    \
+        C13_DUR(FS, F, days, dur::ec::days)                                                                                                      \
+        C13_DUR(FS, F, weeks, dur::ec::weeks)                                                                                                    \
+        C13_DUR(FS, F, months, dur::ec::months)                                                                                                  \
+        C13_DUR(FS, F, years, dur::ec::years)                                                                                                    \
+        C13_DUR(FS, F, sec32, dur::sec32)                                                                                                        \
+        C13_DUR(FS, F, ms32, dur::ms32)                                                                                                          \
+        C13_DUR(FS, F, t44100, dur::t44100)                                                                                                      \
+        C13_DUR(FS, F, t48000, dur::t48000)                                                                                                      \
+        C13_DUR(FS, F, seconds, dur::ec::seconds)                                                                                                \
+        C13_DUR(FS, F, milliseconds, dur::ec::milliseconds)
+C13_DUR_F(minutes, dur::ec::minutes)
+C13_DUR_F(hours, dur::ec::hours)
+C13_DUR_F(days, dur::ec::days)
+C13_DUR_F(weeks, dur::ec::weeks)
+C13_DUR_F(months, dur::ec::months)
+C13_DUR_F(years, dur::ec::years)
+C13_DUR_F(sec32, dur::sec32)
+C13_DUR_F(ms32, dur::ms32)
+C13_DUR_F(t44100, dur::t44100)
+C13_DUR_F(t48000, dur::t48000)
     #define C13_HAVE_PART 1
 #endif
 
@@ -1837,7 +2064,7 @@ C13_SCEN(array_bitset)
 } // namespace c13
 
 #if !defined(C13_HAVE_PART) || !defined(C13_GEN_HEADER)
-    #error "compile with -DC13_PART_<CM64|CM32|CMLD|INT8|NUM8|W1632|W64|CSTR|WSTR|SCEN|CONT> (one or more) and -DC13_GEN_HEADER=\"C13_gen_<part>.hpp\""
+    #error "compile with -DC13_PART_<CM64|CM32|CMLD|INT8|NUM8|W1632|W64|CSTR|WSTR|SCEN|CONT|HET|MIX|DUR> (one or more) and -DC13_GEN_HEADER=\"C13_gen_<part>.hpp\""
 #endif
 #include C13_GEN_HEADER
 
